@@ -182,6 +182,22 @@ def make_long(kind, n, pattern, byteorder="="):
     return arr
 
 
+def relayout(arr, layout):
+    """the same values in another memory layout (Fortran order, a transposed / strided view): ravel() of such an array is a copy"""
+    if arr.ndim < 2 and layout != "strided":
+        return arr
+    if layout == "F":
+        return np.asfortranarray(arr)
+    if layout == "T":
+        return np.ascontiguousarray(arr.T).T
+    if layout == "strided":
+        big = np.zeros(tuple(2 * n for n in arr.shape), dtype=arr.dtype)
+        view = big[tuple(slice(None, None, 2) for _ in arr.shape)]
+        view[...] = arr
+        return view
+    return arr
+
+
 def n_rotations(kind):
     if kind == "b1":
         return 2
@@ -209,6 +225,9 @@ def doc_params(tier):
                     for as_list in ([False, True] if kind in ("b1", "i8", "f8", "U") and bo == "=" else [False]):
                         for a in ([k % len(ATTRS)] if tier == "quick" else range(len(ATTRS))):
                             out.append({"t": "array", "kind": kind, "shape": list(shape), "j": j, "bo": bo, "list": as_list, "attrs": a})
+                        if not as_list and bo == "=" and len(shape) >= 1 and shape != (0,):
+                            for layout in ("F", "T", "strided") if len(shape) == 2 else ("strided",):
+                                out.append({"t": "array", "kind": kind, "shape": list(shape), "j": j, "bo": bo, "list": False, "attrs": 0, "layout": layout})
                         k += 1
             if kind[0] in "Mm" and shape in ((), (1,), (3,)):
                 for j in (100, 101, 102, 103):
@@ -253,6 +272,8 @@ def build_doc(p):
 
     if p["t"] == "array":
         arr = make_array(p["kind"], tuple(p["shape"]), p["j"], p["bo"])
+        if p.get("layout"):
+            arr = relayout(arr, p["layout"])
         dims = ["x", "y"][: arr.ndim]
         data = arr.tolist() if p["list"] else arr
         g = Group(path="/", url="memory:///r", data={"v": Variable(dims, data, dict(ATTRS[p["attrs"]]))}, attrs={"a": 1})
